@@ -77,6 +77,8 @@ type Run struct {
 	Problems          []Problem
 	Shutdown          bool  // shutdown op executed
 	HealthyInputAtEnd bool  // a healthy input stream was attached when the history ended
+	StuckLine         int   // 1-based index of a line that was not delivered within Wait (0 = none)
+	StuckSeq          int64 // trace position at which the follow-up line was entered
 	NoMoreAt          int64 // trace seq from which shutdown is known to be effective (0 = never)
 	Stalled           bool
 	Trace             []Ev // up to the end of the history (before wind-down)
@@ -434,7 +436,24 @@ func Exec(h History) *Run {
 					return writes >= want && (in.A.Wr.Kind == "plain" || flushes >= okWrites)
 				})
 				if !ok {
-					r.problem("C02", "line-not-delivered", "line %d (%q) was not delivered to the healthy attached input a%d within %v", want, clipData(string(op.Data)), in.A.N, Wait)
+					// Not a verdict by itself.  Discriminating follow-up: enter one
+					// more line and see what arrives; OracleC02 then judges the bytes
+					// (a gap, or delivery that only happened after further input).
+					r.StuckLine = want
+					r.StuckSeq = w.Mark("line stuck; entering a follow-up line")
+					w.EnterLine("follow-up-line")
+					r.Lines = append(r.Lines, "follow-up-line")
+					w.WaitFor(3*time.Second, func(tr []Ev) bool {
+						n := 0
+						for _, e := range tr {
+							if e.Kind == EvWrite && e.Seq > r.StuckSeq {
+								n++
+							}
+						}
+						return n >= 1 || in.A.AtRelease("input")
+					})
+					time.Sleep(50 * time.Millisecond)
+					r.problem("C02-FOLLOWUP", "line-stuck", "line %d (%q) was not delivered to the healthy attached input a%d within %v", want, clipData(string(op.Data)), in.A.N, Wait)
 				}
 				if in.A.AtRelease("input") {
 					in.EndedBy["input"] = "write/flush fault"
